@@ -12,6 +12,8 @@
 pub mod aimd;
 pub mod error;
 pub mod events;
+#[cfg(feature = "verif-hooks")]
+pub mod verif;
 
 #[cfg(feature = "health-integration")]
 pub mod health_integration;
